@@ -343,7 +343,8 @@ func (m *Manager) PatchStableService(c *TrafficRoutingContext) (bool, error) {
 		return false, nil
 	}
 	if c.OnlyTrafficRouting || c.DisableGenerateCanaryService {
-		return true, nil
+		// nothing to patch, so no retry is needed
+		return false, nil
 	}
 
 	// fetch stable service
